@@ -37,7 +37,7 @@ var c15Repo = c15Params{
 	plainCtor: "NewTableEditorIter", ckptCtor: "NewCheckpointingTableEditorIter",
 	iterPkgs:   []string{"sql/rowexec", "sql/plan"},
 	editorPkgs: []string{"memory", "sql/plan", "sql/fulltext", "sql/in_mem_table", "sql/rowexec"},
-	floors:     map[string]int{"C15-S0": 2, "C15-S1": 4, "C15-S2": 6, "C15-S3": 7, "C15-S4": 40, "C15-S5": 5},
+	floors:     map[string]int{"C15-S0": 2, "C15-S1": 4, "C15-S2": 6, "C15-S3": 7, "C15-S4": 40, "C15-S5": 5, "C15-S6": 2, "C15-S7": 1, "C15-S8": 1, "C15-S9": 4},
 }
 
 // c15S5Exceptions: wrapper editors whose lifecycle methods do not all forward to the same
@@ -55,9 +55,11 @@ func init() {
 			"(S2) TableEditorIter.Close calls DiscardChanges on every opener-closer exactly on the recorded-error branch and StatementComplete on every one otherwise (loops without early exit), the returned error depends on their results, and the wrapped iterator is closed on every path; " +
 			"(S3) every RowIter type whose methods edit rows through editors held in its fields is constructed only as the wrapped argument of NewTableEditorIter/NewCheckpointingTableEditorIter; " +
 			"(S4) no error-returning method of an EditOpenerCloser implementation returns a literal nil on a path where an error variable is known non-nil and was not looked at again (swallowed error); " +
-			"(S5) a wrapper editor forwards StatementBegin, DiscardChanges and StatementComplete to the same set of sub-editors. A violated clause means a failed statement can be completed instead of discarded (partial rows stay), or a failed completion is reported as success.",
-		NotCovered: "that DiscardChanges of a backend really restores the snapshot (aliasing of TableData copies), FK cascades into other tables, trigger rollback (AddTriggerRollbackIter), DDL rewrites (C21), errors raised by DiscardChanges itself inside wrapper loops",
-		Technique:  "CFG must-pass-through with error-state tracking + who-may-construct over go/types + SSA dependence of the returned error",
+			"(S5) a wrapper editor forwards StatementBegin, DiscardChanges and StatementComplete to the same set of sub-editors; " +
+			"(S6–S9) for every editor whose StatementBegin keeps a snapshot (a receiver field assigned from a value derived from another receiver field; discovered structurally — memory.tableEditor: initialTable from editedTable): (S6) the snapshot field is assigned only in StatementBegin and in composite literals; (S7) outside StatementBegin nothing writes through the snapshot — no store / map update / copy() into memory reached from a load of the field, no call (static, or interface call resolved to the implementations of the package) passing it to a function that writes through that parameter, transitively; (S8) DiscardChanges writes the live table from the snapshot (a store into memory reached from the live field of a value derived from the snapshot, a call g(live…, snapshot…) where g writes through the former a value derived from the latter, or a receiver helper that does so on every path) on every path to a return except through the `err.(sql.IgnorableError)` ok-edge; (S9) every value assigned to the snapshot field is a fresh object (allocation or result of a function whose every return is one), and the pointer fields read through the snapshot (Table.data) receive a fresh value in the copying function on every path — the snapshot is a copy, not an alias. " +
+			"A violated clause means a failed statement can be completed instead of discarded (partial rows stay), or a failed completion is reported as success.",
+		NotCovered: "aliasing below the second level of the snapshot copy (that TableData.copy re-creates every map / slice it shares), that Close publishes the restored data to the session, snapshot mutation through callees outside the module or through function values, FK cascades into other tables, trigger rollback (AddTriggerRollbackIter), DDL rewrites (C21), errors raised by DiscardChanges itself inside wrapper loops",
+		Technique:  "CFG must-pass-through with error-state tracking + who-may-construct over go/types + SSA dependence of the returned error; snapshot rules: who-may-write + pointer-taint / transitive mutates-parameter summaries + data-flow direction (forward slice snapshot -> live) + must-pass over the SSA CFG",
 		Run:        func(c *Ctx) { runC15(c, c15Repo) },
 		Fixture: func(c *Ctx, fx *Prog) {
 			p := c15Params{sqlRel: "testdata/c15/sql", ocIface: "EditOpenerCloser", iterIface: "RowIter", ignorable: "IgnorableError",
@@ -75,6 +77,12 @@ func init() {
 				"C15-S3:testdata/c15/exec.rowWriter/construct@NewBare",
 				"C15-S4:testdata/c15/exec.memEditor.StatementComplete/swallow err",
 				"C15-S5:testdata/c15/exec.pairEditor/DiscardChanges",
+				"C15-S6:resnapSnap.Lookup/assigns resnapSnap.snap",
+				"C15-S7:swapSnap.DiscardChanges/reads swapSnap.snap/call table.replaceData",
+				"C15-S8:swapSnap.DiscardChanges/restores live from snap",
+				"C15-S8:condSnap.DiscardChanges/restores live from snap",
+				"C15-S9:aliasSnap.StatementBegin/snapshot-copy aliasSnap.snap",
+				"C15-S9:shallowSnap.StatementBegin/snapshot-copy-deep shallowSnap.snap.data",
 			}, func(fc *Ctx) { runC15(fc, p) })
 		},
 		FixturePkgs: []string{"./testdata/c15/sql", "./testdata/c15/plan", "./testdata/c15/exec"},
@@ -106,6 +114,7 @@ func runC15(c *Ctx, p c15Params) {
 	a.constructors()
 	a.swallowed()
 	a.forwarding()
+	a.snapshots()
 }
 
 type c15 struct {
